@@ -22,14 +22,14 @@ def load_corpus(prop):
 
 
 def signature(cfg, cov):
-    keys = sorted(k for k in cov if k.startswith(("tier:", "err:", "op:", "br:")))
+    keys = sorted(k for k in cov if k.startswith(("tier:", "err:", "op:", "br:", "psend:", "cnext:", "x:", "raw:")))
     cfgc = ",".join(f"{k}={cfg[k]}" for k in sorted(cfg) if k in ("save", "seg", "cache", "idxcache", "dedup", "confirm"))
     return cfgc + "|" + ",".join(keys)
 
 
 MUTATING = ("send", "purge-topic", "purge-stream", "store-offset", "delete-offset", "create-parts",
-            "delete-parts", "maintain", "delete-topic")
-OBSERVING = ("poll", "get-offset", "topic", "stats")
+            "delete-parts", "maintain", "delete-topic", "psend", "stress")
+OBSERVING = ("poll", "get-offset", "topic", "stats", "cnext")
 
 
 def run_node_property(prop, tier, seed, replay, t0, *, module, gen, n_quick, n_thorough, spec_prefixes,
@@ -845,6 +845,24 @@ def run_c13(prop, tier, seed, replay, t0):
 
 
 PROPS["C13"] = {"run": run_c13}
+
+import gen_sdk
+PROPS["C20"] = {"run": lambda p, tier, seed, replay, t0: run_node_property(
+    p, tier, seed, replay, t0, module="Iggy.Props.C20", gen=gen_sdk.gen_any,
+    n_quick=64, n_thorough=1500,
+    spec_prefixes=["producer-", "consumer-", "group-", "commit-", "sdk-", "hl-", "poll-"],
+    corr_kinds={"psend", "cnext", "cstore", "poll-offsets", "poll-content", "poll-cur", "poll-status", "send", "group"},
+    assumptions=ASSUME_NODE + [
+        "PARTIAL (timing): the theorems cover every schedule of the consumer's background commit task against its polls; the real "
+        "tokio scheduling is sampled. The yielded sequence is compared exactly with the model (single-partition consumers); WHEN an "
+        "offset reaches the server is schedule-dependent, so a stored offset read back is judged by the property's bound (never beyond "
+        "what was yielded, or fetched in the commit-on-poll mode) and then adopted by the model",
+        "group members are judged by specification-level oracles only (order, genuineness, no skip, no re-read below the stored offset, "
+        "completeness after draining); which member serves which partition is the server's business (C08)",
+        "allow_replay, AutoCommitAfter (consume_messages helper), reconnection and client-side encryption are not driven",
+        "strategies first / last / timestamp ask for the same position at every poll: for them only order, genuineness and no repeats are required"],
+    extra_tb=["the real IggyClient / IggyProducer / IggyConsumer (sdk/src/clients) over real TCP connections to the in-process server",
+              "consumer model lean/Iggy/Sdk/Model.lean, run by the judge against the system model (Driver/Main.lean sdkYield/sdkDeliver)"])}
 
 import gen_conc
 PROPS["C12"] = {"run": lambda p, tier, seed, replay, t0: run_node_property(
